@@ -1,0 +1,40 @@
+// Copyright 2021 The Cockroach Authors.
+//
+// Licensed under the Apache License, Version 2.0 (the "License");
+// you may not use this file except in compliance with the License.
+// You may obtain a copy of the License at
+//
+//     http://www.apache.org/licenses/LICENSE-2.0
+//
+// Unless required by applicable law or agreed to in writing, software
+// distributed under the License is distributed on an "AS IS" BASIS,
+// WITHOUT WARRANTIES OR CONDITIONS OF ANY KIND, either express or
+// implied. See the License for the specific language governing
+// permissions and limitations under the License.
+
+//go:build verif
+// +build verif
+
+package buffer
+
+// This file is only compiled with the build tag "verif". It gives a
+// deterministic simulation harness a read-only view of the hidden
+// state of a Buffer, and a way to scribble over its spare capacity.
+
+// VerifState returns the hidden state of the buffer: output mode,
+// whether an envelope is open, the escaped-prefix mark, length,
+// capacity, and an alias of the backing array up to its capacity.
+func (b *Buffer) VerifState() (mode int, markerOpen bool, validUntil, length, capacity int, backing []byte) {
+	return int(b.mode), b.markerOpen, b.validUntil, len(b.buf), cap(b.buf), b.buf[:cap(b.buf)]
+}
+
+// VerifPoison overwrites the spare capacity of the buffer (the bytes
+// between its length and its capacity, which no reader may rely on)
+// with the given byte and returns the number of bytes overwritten.
+func (b *Buffer) VerifPoison(c byte) int {
+	spare := b.buf[len(b.buf):cap(b.buf)]
+	for i := range spare {
+		spare[i] = c
+	}
+	return len(spare)
+}
